@@ -161,6 +161,24 @@ def run(chk):
         # answer depend on other managers
         g3.bad('imb_errno@' + fn, loc,
                'process-wide imb_errno consulted in %s: the per-manager answer depends on what other managers/threads did' % fn)
+    # ---- G6 who-may-call: the fallback of imb_get_errno() (K6) makes its answer for a manager whose own status is 0 depend on what any
+    # other manager recorded; library code that decides anything on it couples managers.  Library code reads mb_mgr->imb_errno.
+    g6 = chk.rule('G6', 'no library function other than the accessor itself calls imb_get_errno(): its answer falls back to the '
+                        'process-wide error (K6), so a decision taken on it depends on other managers', floor=1)
+    ndef = 0
+    for tu in P.tus():
+        for f in P.funcs(tu):
+            if f.name == 'imb_get_errno':
+                ndef += 1
+                g6.ok('imb_get_errno:defined', f.loc)
+                continue
+            for _, _, ev in f.calls():
+                if ev['e'].get('fn') == 'imb_get_errno':
+                    g6.bad('imb_get_errno@' + f.name, ev['loc'],
+                           '%s() consults imb_get_errno(): for a manager whose own status is 0 this is the process-wide error another '
+                           'manager/thread may have recorded; read mb_mgr->imb_errno instead' % f.name)
+    if not ndef:
+        chk.broken('imb_get_errno not found in the library')
     # ---- G4
     shared.rule_errno_target(chk, P, 'G4')
     # ---- G5
